@@ -9,7 +9,9 @@ import FluteModel.Lemmas.RecvSkew
 namespace Flute.Recv.Whole
 open Flute Flute.Recv
 
-/-- the owners' lemmas the composition still takes as hypotheses -/
+variable (P : ObjRecv.Params)
+
+/-- the owners' lemmas the composition takes as hypotheses, for the object-model parameters `P` -/
 structure Interfaces where
   /-- [orecv] the invariant under which the object machine cannot panic -/
   OInv : ObjRecv.St → Prop
@@ -18,12 +20,12 @@ structure Interfaces where
   /-- [orecv] `ObjectReceiver::new(.., max_size_allocated)` (`object_max_cache_size` is a `usize`) -/
   inv_new : ∀ toi m, m < 2 ^ 63 → OInv (ObjRecv.St.new toi m)
   /-- [orecv] `push_total` -/
-  push_total : ∀ st p, OInv st → PktOK p → ∃ st', ObjRecv.push Full.params st p = .ok st' ∧ OInv st'
+  push_total : ∀ st p, OInv st → PktOK p → ∃ st', ObjRecv.push P st p = .ok st' ∧ OInv st'
   /-- [orecv] what the object machine needs of an FDT File entry -/
   FileOK : ObjRecv.FileEntry → Prop
   /-- [orecv] `attach_total` -/
   attach_total : ∀ st id f, OInv st → (∀ e, f = some e → FileOK e) →
-    ∃ st' b, ObjRecv.attachFdt Full.params st id f = .ok (st', b) ∧ OInv st'
+    ∃ st' b, ObjRecv.attachFdt P st id f = .ok (st', b) ∧ OInv st'
   /-- [orecv] the File entry that stands for the EXT_FTI of an FDT packet (`Full.fdtEntry0`, the TOI-0 adapter) is
       admissible when the packet is -/
   entry0_ok : ∀ q, PktOK q → ∀ e, Full.fdtEntry0 q = some e → FileOK e
@@ -31,55 +33,57 @@ structure Interfaces where
   parsed_pkt_ok : ∀ (d : List UInt8) (p : Alc.AlcPkt), Alc.parseAlcPkt (d.map UInt8.toNat) = .ok p →
     PktOK (Full.toPkt (ofAlc (d.map UInt8.toNat) p))
 
+variable {P}
+
 /-- an object of the registry is healthy: never faulted, and the object-level invariant holds -/
-def ObjOK (X : Interfaces) : Full.Any → Prop
+def ObjOK (X : Interfaces P) : (Full.Any P) → Prop
   | .inl _ => True
   | .inr o => o.fault = false ∧ X.OInv o.st
 
 /-- a parsed FDT instance whose File entries the object machine accepts -/
-def FdtQ (X : Interfaces) (inst : FdtAbs) : Prop :=
+def FdtQ (X : Interfaces P) (inst : FdtAbs) : Prop :=
   ∀ toi x, inst.getFile toi = some x → ∀ cc, X.FileOK (Full.entryOf x cc)
 
 /-- the XML parser's answer for a completed FDT object is such an instance (or an error) -/
-def AnsOK (X : Interfaces) (ans : FdtAns) : Prop := ∀ fdt u, ans = .ok fdt u → FdtQ X fdt
+def AnsOK (X : Interfaces P) (ans : FdtAns) : Prop := ∀ fdt u, ans = .ok fdt u → FdtQ X fdt
 
 /-- the byte-level call carries an admissible XML-parser answer -/
-def BOpAns (X : Interfaces) : BOp → Prop
+def BOpAns (X : Interfaces P) : BOp → Prop
   | .data _ _ ans => AnsOK X ans
   | .cleanup _ _ => True
 
-def anyFault : Full.Any → Bool
+def anyFault : (Full.Any P) → Bool
   | .inr o => o.fault
   | .inl _ => false
 
 /-- some ObjectReceiver - of the registry, or the FDT object (TOI 0) inside an FDT-instance receiver - panicked or hung
     in this or an earlier call -/
-def hasFault (s : State Full.Any) : Bool :=
+def hasFault (s : State (Full.Any P)) : Bool :=
   (s.objects.any fun x => anyFault x.2) ||
   (s.fdtReceivers.any fun kf => match kf.2.obj with | some o => anyFault o | none => false) ||
   (s.fdtCurrent.any fun f => match f.obj with | some o => anyFault o | none => false)
 
 /-- **`Receiver::push_data(d, now)`, the whole call**: `.error` = a panic or a hang anywhere between the datagram bytes and
     the ring buffer of a decompressor -/
-def pushDataWhole (tsi : Nat) (s : State Full.Any) (d : List UInt8) (now : Int) (ans : FdtAns) :
-    ObjRecv.Rx (State Full.Any × Res × List Ev) :=
-  match pushDataBytes Full.iface tsi s (d.map UInt8.toNat) now ans with
+def pushDataWhole (tsi : Nat) (s : State (Full.Any P)) (d : List UInt8) (now : Int) (ans : FdtAns) :
+    ObjRecv.Rx (State (Full.Any P) × Res × List Ev) :=
+  match pushDataBytes (Full.iface P) tsi s (d.map UInt8.toNat) now ans with
   | .error w => .error (.panic w)
   | .ok (s', r, evs) =>
     if hasFault s' then .error (.panic "ObjectReceiver::push / attach_fdt panicked or hung") else .ok (s', r, evs)
 
 /-- `Receiver::cleanup(now)`, likewise -/
-def cleanupWhole (s : State Full.Any) (now : Int) (stale : Stale) : ObjRecv.Rx (State Full.Any × List Ev) :=
-  match cleanup Full.iface s now stale with
+def cleanupWhole (s : State (Full.Any P)) (now : Int) (stale : Stale) : ObjRecv.Rx (State (Full.Any P) × List Ev) :=
+  match cleanup (Full.iface P) s now stale with
   | .error w => .error (.panic w)
   | .ok (s', evs) => if hasFault s' then .error (.panic "ObjectReceiver fault") else .ok (s', evs)
 
 /-- states reachable from `Receiver::new(cfg)` by any history of byte-level calls at sane times (with admissible
     XML-parser answers) -/
-inductive Reachable (X : Interfaces) (tsi : Nat) (cfg : Config) : State Full.Any → Prop
+inductive Reachable (X : Interfaces P) (tsi : Nat) (cfg : Config) : State (Full.Any P) → Prop
   | init : Reachable X tsi cfg (State.init cfg)
-  | step (s s' : State Full.Any) (b : BOp) (r : Res) (evs : List Ev) :
+  | step (s s' : State (Full.Any P)) (b : BOp) (r : Res) (evs : List Ev) :
       Reachable X tsi cfg s → TimeSane (b.abs tsi).now → BOpAns X b →
-      step Full.iface s (b.abs tsi) = .ok (s', r, evs) → Reachable X tsi cfg s'
+      step (Full.iface P) s (b.abs tsi) = .ok (s', r, evs) → Reachable X tsi cfg s'
 
 end Flute.Recv.Whole
